@@ -185,17 +185,25 @@ std::string vf_run(const Case &c, vf::Ctx &ctx) {
   pt::DynPorts inner(pv);
   // every second configuration nests the table below a sub-tree port, so that the port's full address has two levels
   bool nested = (c.stem.size() + c.ops.size()) % 2 == 1;
+  // nested: the same port exists at the root (object 0) and below "grp/" (object 1); the sub-tree callback hands the child
+  // object down the way rRecurCb does (dispatch gives the caller's object back afterwards), operations alternate between
+  // the two levels, and the RtData object pointer set before the first message is what all later messages start from
+  Obj objs[2], models[2];
+  Obj *child = &objs[1];
   std::vector<rtosc::Port> ov;
-  ov.push_back(rtosc::Port{"grp/", "", &inner, [&inner](const char *m, rtosc::RtData &d) { while (*m && *m != '/') ++m; if (*m) ++m; inner.dispatch(m, d); }});
+  ov.push_back(rtosc::Port{"zz_top::i", "", nullptr, [](const char *, rtosc::RtData &) {}});
+  ov.push_back(rtosc::Port{pname.c_str(), mb.get(), nullptr, kind_cb(c.kind)});
+  ov.push_back(rtosc::Port{"grp/", "", &inner, [&inner, child](const char *m, rtosc::RtData &d) { d.obj = child; while (*m && *m != '/') ++m; if (*m) ++m; inner.dispatch(m, d); }});
   pt::DynPorts outer(ov);
   rtosc::Ports &ports = nested ? (rtosc::Ports &)outer : (rtosc::Ports &)inner;
-  const std::string prefix = nested ? "/grp/" : "/";
-
-  Obj obj, model;
+  void *carry = &objs[0];
   bool nontriv = false;
   std::string D = " | " + c.describe();
   for (size_t oi = 0; oi < c.ops.size(); oi++) {
     const Op &op = c.ops[oi];
+    const int tg = nested ? (int)((oi + c.stem.size()) % 2) : 0;
+    Obj &obj = objs[tg], &model = models[tg];
+    const std::string prefix = tg ? "/grp/" : "/";
     std::string addr = prefix + c.stem + (is_array(c.kind) ? std::to_string(op.idx) : "");
     std::string tags;
     std::vector<refosc::Val> vals;
@@ -212,9 +220,10 @@ std::string vf_run(const Case &c, vf::Ctx &ctx) {
     Capture d;
     char loc[256];
     memset(loc, 0, sizeof loc);
-    d.obj = &obj;
+    d.obj = carry;
     d.loc = loc; d.loc_size = sizeof loc;
     ports.dispatch(msg.msg(), d, true);
+    carry = d.obj;
     std::string W = " at op " + std::to_string(oi) + D;
     if (d.matches != 1) return "message " + addr + " ," + tags + " matched " + std::to_string(d.matches) + " ports" + W;
 
@@ -325,6 +334,11 @@ std::string vf_run(const Case &c, vf::Ctx &ctx) {
     }
     // ---- compare stored state: the addressed field as modelled, every other byte untouched
     // (strings: bytes behind the terminator are not part of the value)
+    {
+      const Obj &o2 = objs[1 - tg], &m2 = models[1 - tg];
+      bool same2 = o2.c1 == m2.c1 && o2.i1 == m2.i1 && !memcmp(&o2.f1, &m2.f1, 4) && o2.t1 == m2.t1 && o2.o1 == m2.o1 && !strcmp(o2.s1, m2.s1) && !memcmp(o2.ai, m2.ai, 4) && !memcmp(o2.af, m2.af, 16) && !memcmp(o2.at, m2.at, 4) && !memcmp(o2.ao, m2.ao, 16) && o2.guard_after == 0x5a;
+      if (!same2) return std::string("a message for the ") + (tg ? "nested" : "root") + " level changed the object of the other level" + W;
+    }
     bool same = obj.c1 == model.c1 && obj.i1 == model.i1 && !memcmp(&obj.f1, &model.f1, 4) && obj.t1 == model.t1 && obj.o1 == model.o1 && !strcmp(obj.s1, model.s1) && obj.s1[11] == 0 &&
                 !memcmp(obj.ai, model.ai, 4) && !memcmp(obj.af, model.af, 16) && !memcmp(obj.at, model.at, 4) && !memcmp(obj.ao, model.ao, 16) && obj.guard_after == 0x5a;
     if (!same) {
